@@ -745,6 +745,61 @@ example (hEq : EqSpec) :
   obtain ⟨r', h1, h2, _⟩ := h
   exact ⟨r', h1, h2⟩
 
+/-- `{"":{"":1},"k":{"":null}}` (parsed): members named `""` -/
+def exRE : Impl.Root :=
+  { con := .doc [[], ascii "k"]
+      [([], .doc [[]] [([], .raw (.lit (ascii "1")))]),
+       (ascii "k", .doc [[]] [([], .nil)])],
+    self := .nil }
+
+/-- pointers with EMPTY reference tokens (`//` = member `""` of member `""`; `/k/` = member `""`
+of member `k`; `/` = member `""` of the root): inside the domain since `get("")` was repaired -/
+def exOpsE : List Impl.Op :=
+  [ { kind := ascii "replace", path := ascii "//", value := some (.lit (ascii "2")) },
+    { kind := ascii "test", path := ascii "/k/", value := some (.lit (ascii "null")) },
+    { kind := ascii "copy", path := ascii "/k/c", frm := some (ascii "/") },
+    { kind := ascii "remove", path := ascii "//" },
+    { kind := ascii "move", path := ascii "//", frm := some (ascii "/k/") } ]
+
+def exSopsE : List Spec.Op :=
+  [ { kind := .replace, path := ascii "//", value := some (.num (ascii "2")) },
+    { kind := .test, path := ascii "/k/", value := some .null },
+    { kind := .copy, path := ascii "/k/c", frm := ascii "/" },
+    { kind := .remove, path := ascii "//" },
+    { kind := .move, path := ascii "//", frm := ascii "/k/" } ]
+
+/-- `{"":{"":null},"k":{"c":{"":2}}}` -/
+def exResultE : Value :=
+  .obj [([], .obj [([], .null)]),
+        (ascii "k", .obj [(ascii "c", .obj [([], .num (ascii "2"))])])]
+
+example : Spec.parsePointer (ascii "/k/") = some [ascii "k", []] ∧
+    Spec.parsePointer (ascii "//") = some [[], []] ∧ Spec.parsePointer (ascii "/") = some [[]] := by
+  refine ⟨?_, ?_, ?_⟩ <;> rfl
+
+/-- `applyOps_refines` on pointers with empty reference tokens: the engine addresses the members
+named `""` exactly as the specification (RFC 6901) says -/
+example (hEq : EqSpec) :
+    ∃ r', Impl.applyOps exO exRE 0 exOpsE = .ok r' ∧ Impl.den r'.con = exResultE := by
+  have hmem : ∀ (P : Impl.Op → Prop), (∀ op ∈ exOpsE, P op) ↔
+      (P exOpsE[0] ∧ P exOpsE[1] ∧ P exOpsE[2] ∧ P exOpsE[3] ∧ P exOpsE[4]) := by
+    intro P; simp [exOpsE]
+  have hv : ∀ op ∈ exOpsE, ∀ c, op.value = some c → c.valueOf.noDup = true :=
+    (hmem _).2 (by refine ⟨?_, ?_, ?_, ?_, ?_⟩ <;> intro c hc <;> cases hc <;> decide)
+  have hcst : ∀ op ∈ exOpsE, ∀ c, op.value = some c → Impl.CstOK exO.esc c = true :=
+    (hmem _).2 (by refine ⟨?_, ?_, ?_, ?_, ?_⟩ <;> intro c hc <;> cases hc <;> decide)
+  have hq : ∀ op ∈ exOpsE, ∀ toks, Spec.parsePointer op.path = some toks →
+      ∀ t ∈ toks, Impl.QK exO.esc t = true :=
+    (hmem _).2 (by refine ⟨?_, ?_, ?_, ?_, ?_⟩ <;> intro toks ht <;> cases ht <;> decide)
+  have hfrm : ∀ op ∈ exOpsE, op.kind = ascii "copy" → op.frm ≠ none :=
+    (hmem _).2 (by refine ⟨?_, ?_, ?_, ?_, ?_⟩ <;> intro hk <;> first | exact absurd hk (by decide) | simp [exOpsE])
+  have h := applyOps_refines hEq exO rfl rfl exRE (by decide) (by decide) exOpsE exSopsE (by rfl)
+    hv hcst hq hfrm (fun _ => 0) 0 0 0
+  have hs : Spec.applyFrom (specOpts exO) (fun _ => 0) 0 0 (Impl.den exRE.con) exSopsE = .ok exResultE := by rfl
+  rw [hs] at h
+  obtain ⟨r', h1, h2, _⟩ := h
+  exact ⟨r', h1, h2⟩
+
 /-- `move_eq_remove_add` on `{"a":1}`, `move /a → /b` -/
 example :
     Spec.applyOp {} 0 0 (.obj [(ascii "a", .num (ascii "1"))])
